@@ -71,3 +71,27 @@ Definition flag_tag (c : flag_case) : Z :=
   end.
 
 Definition check_flags (cases : list flag_case) : report := mk_report flag_mismatch flag_propfail flag_tag cases.
+
+(* --- the flag table against the configuration's field table ----------------------------------------------------
+   [flags_fit tbl]: every flag of the documented table addresses a setting of [tbl] — the field table regenerated
+   from the source by reflection (harness cmd/conf -stage fields, the table C18 uses) — and reads its text as that
+   setting's kind of value.  Evaluated on every run against the regenerated table (obligation flags_fit_now). *)
+From Reservoir Require Import Model.ConfigTxn.
+From Coq Require Import Ascii.
+
+Definition bytes_of (s : string) : str := map (fun b => Z.of_N (Byte.to_N b)) (list_byte_of_string s).
+
+Fixpoint split_dot (s : str) (cur : str) : list str :=
+  match s with
+  | nil => [rev cur]%list
+  | c :: r => if (c =? 46)%Z then (rev cur :: split_dot r nil)%list else split_dot r (c :: cur)%list
+  end.
+Definition path_of (s : string) : list str := split_dot (bytes_of s) nil.
+
+Definition conv_kind (c : fconv) : fkind :=
+  match c with FCStr => KStr | FCBool => KBool | FCInt => KInt | FCSize => KSize | FCLevel => KLevel end.
+
+Definition flag_fits (tbl : table) (e : string * (string * fconv)) : bool :=
+  existsb (fun f => path_eqb (f_path f) (path_of (fst (snd e))) && fkind_eqb (f_kind f) (conv_kind (snd (snd e)))) tbl.
+Definition flags_fit (tbl : table) : bool := forallb (flag_fits tbl) flag_table.
+Definition flags_unfit (tbl : table) : list string := map fst (filter (fun e => negb (flag_fits tbl e)) flag_table).
